@@ -323,11 +323,11 @@ def po_cases(draw):
     else:
         vals = draw(st.lists(values(), min_size=n, max_size=n))
         pts = [[t, v] for t, v in zip(times, vals)]
-    return {"cls": cls, "points": pts, "xmin": draw(st.sampled_from([0, 0, 0.25])), "xmax": hi}
+    return {"cls": cls, "points": pts, "xmin": draw(st.sampled_from([0, 0, 0.25, 0.1234567, 0.36484374999999997, 2.5e-05])), "xmax": hi}
 
 
 CHECKS = [
-    Check("klatt_synthetic", run_synthetic, strategy=lambda tier: klatt_cases(), quick_n=120, thorough_n=3000),
+    Check("klatt_synthetic", run_synthetic, strategy=lambda tier: klatt_cases(), quick_n=120, thorough_n=3000, fuzz_runs=3000),
     Check("klatt_fixture", run_fixture, strategy=lambda tier: fixture_cases(), quick_n=4, thorough_n=20,
           doc="the repository's reference KlattGrid, with generated modifications"),
     Check("point_objects", run_point_object, strategy=lambda tier: po_cases(), quick_n=500, thorough_n=12000),
